@@ -36,12 +36,13 @@ func init() {
 	register(&Property{
 		ID: "C15",
 		Explanation: "Decides structural necessary conditions of token-set resolution: SIBLING(resolvesets): each work-list case of syntax.ResolveSets (any/first/last/precede/follow) instantiates the sets its definition needs, walks the rule in the right direction from the right position, stops after the first non-nullable symbol (polarity of the nullable test) and falls through to the enclosing nonterminal only when the walk was not stopped. " +
-			"CYCLE: every recursion over *syntax.TokenSet (cyclic for mutually recursive named sets) is cut by a visited set keyed by the node. ALIAS/ESCAPE: scratch buffers of the set closure never alias an operand and buffer-backed slices are not retained. GUARD(complcycle): complement-on-cycle is reported exactly under op==complement ∧ onStack. DTX(setalg) as in C25. " +
+			"SHARED: an in-place, self-dependent rewrite of TokenSet nodes inside a per-set traversal consults a visited set that outlives one traversal (nodes are shared between named sets). CYCLE: every recursion over *syntax.TokenSet (cyclic for mutually recursive named sets) is cut by a visited set keyed by the node. ALIAS/ESCAPE: scratch buffers of the set closure never alias an operand and buffer-backed slices are not retained. GUARD(complcycle): complement-on-cycle is reported exactly under op==complement ∧ onStack. DTX(setalg) as in C25. " +
 			"Not decided: that the fixpoint equals the definitional sets, Nullable(), reachability from the first input.",
-		Rules: []string{"SIBLING(resolvesets)", "CYCLE", "ALIAS", "ESCAPE", "GUARD(complcycle)", "DTX(setalg)", "GUARD(unionclone)"},
+		Rules: []string{"SIBLING(resolvesets)", "CYCLE", "SHARED", "ALIAS", "ESCAPE", "GUARD(complcycle)", "DTX(setalg)", "GUARD(unionclone)"},
 		Run: func(c *Ctx) {
 			ruleRESOLVESETS(c)
 			ruleCYCLE(c)
+			ruleSHARED(c)
 			pk := map[string]bool{"util/set": true, "util/container": true, "syntax": true}
 			ruleALIAS(c, pk)
 			ruleESCAPE(c, pk)
